@@ -139,6 +139,13 @@ class Bits:
             elif tgt.endswith('rand_int'):
                 b = self.bits_op(args[1], depth + 1)
                 res = (b[0], (name,)) if b else None
+            elif tgt.endswith(('::random_number', '::random_number_below')) and args:
+                # uniform below its argument: as many bits as the bound has (`random_number(Integer::from(ln))` is a number below ln, not an
+                # ln-bit number)
+                b = self.bits_op(args[0], depth + 1)
+                res = (b[0], (name,)) if b else (0, (name,))
+                self.masks = getattr(self, 'masks', {})
+                self.masks[name] = res[0]
             elif cal.endswith('Integer::from_digits'):
                 res = (256, (name,))
             elif cal.endswith('array::from_fn') and args and args[-1]['k'] in ('copy', 'move') and not args[-1]['pl'].get('p'):
@@ -438,13 +445,13 @@ def rule_range_proof_challenge_length(ctx, cfg='prod-all'):
 
         def mask_counts_t(op, depth=0):
             """the mask comes from rand_int whose upper end is computed from a power of two whose exponent depends on parameter t"""
-            if op.get('k') not in ('copy', 'move') or depth > 4 or kt is None:
+            if op.get('k') not in ('copy', 'move') or depth > 4:
                 return False
             oc = origin_call(zf, op['pl']['l'])
             if oc is None:
                 return False
             if (local_target(eng, oc) or '').endswith('rand_int') and len(oc['args']) == 2:
-                return any(strip(a)[0] == 'p' and strip(a)[1] == kt for a in fd.read_op(oc['args'][1]))
+                return any(strip(a)[0] == 'p' and (strip(a)[1] == kt or (strip(a)[2] and strip(a)[2][-1] == 't')) for a in fd.read_op(oc['args'][1]))
             if (oc.get('callee') or '') in PASS and oc['args']:
                 return mask_counts_t(oc['args'][0], depth + 1)
             return False
